@@ -3,6 +3,15 @@
 use vstd::prelude::*;
 verus! {
 
+global size_of usize == 8;
+
+// the integer helpers a (changed) parser may use (N6)
+pub mod n6 {
+    use vstd::prelude::*;
+    //@ include ../prelude/n6.rs
+    //@ include ../prelude/wire.rs
+}
+
 pub struct NaiveDateTime { pub opaque: u64 }
 
 //@ item src:zvt_builder/src/lib.rs | enum ZVTError | derive=Debug
@@ -78,6 +87,7 @@ pub mod seqs {
     use crate::zvt_builder;
     use crate::packets;
     use crate::packets::*;
+    use crate::n6::*;
     //@ include u3_cmd_seqs.tpl
     //@ include u3_enums_sequences.tpl
     //@ include u3_enums_feig_sequences.tpl
@@ -87,6 +97,7 @@ pub mod io {
     use crate::zvt_builder;
     use crate::packets;
     use crate::packets::Ack as AckPacket;
+    use crate::n6::*;
     //@ include u3_cmd_io.tpl
     //@ include u3_enums_io.tpl
 }
